@@ -1,5 +1,5 @@
 (* C07 - stop discipline: That's all, Rounds, Stand, stop-at-rounds; bells left at hand. *)
-From Wh Require Import Prelude Permute PN Gens Complib Tower Rhythm PyStr Sys GensP BotP SettingsP.
+From Wh Require Import Prelude Permute PN Gens Complib Tower Rhythm PyStr Sys GensP BotP SettingsP TurnoverP.
 From Coq Require Import NArith ZArith QArith.
 Close Scope Q_scope.
 
@@ -51,3 +51,9 @@ Theorem C07_people_never_cancel_a_call : forall nested w m w' o,
   match m with MUserEntered _ _ | MUserList _ | MUserLeft _ | MAssign _ _ => True | _ => False end ->
   handle nested w m = (w', o) -> same_control w w'.
 Proof. exact people_messages_keep_control. Qed.
+
+(* the control skeleton of a row turnover can only STOP the ringing: once Stop touch (or a stand) has switched it
+   off, no turnover - into a handstroke or a backstroke, whatever else is pending - switches it on again *)
+Theorem C07_turnover_never_starts_ringing : forall sar hjr nh ok fits k k' act,
+  snr_ctl sar hjr nh ok fits k = Ok (k', act) -> k_ringing k = false -> k_ringing k' = false.
+Proof. exact turnover_never_starts_ringing. Qed.
